@@ -3,7 +3,7 @@
 The grammar *file* is loaded with lark.Lark(text, start="fbody", parser="earley") - this runs Lark's grammar loader on
 a data file, not any repository code - and read through `.rules` / `.terminals`.  The model reproduces Lark's documented
 tree shaping: anonymous tokens are filtered out (unless `!rule`), `_rules` are spliced into their parent, `?rule` with
-exactly one kept child is replaced by that child, `[x]` leaves a None placeholder, `-> alias` renames the callback.
+exactly one kept child is replaced by that child (unless the alternative has an `-> alias`: ParseTreeBuilder applies ExpandSingleChild only when `not rule.alias`), `[x]` leaves a None placeholder, `-> alias` renames the callback.
 """
 from __future__ import annotations
 
@@ -59,7 +59,7 @@ class GrammarModel:
         self.rules: dict[str, list[Alt]] = {}
         for r in L.rules:
             syms = [(s.name, s.is_term, bool(getattr(s, "filter_out", False))) for s in r.expansion]
-            a = Alt(r.origin.name, r.order, syms, r.alias, bool(r.options.expand1), bool(r.options.keep_all_tokens),
+            a = Alt(r.origin.name, r.order, syms, r.alias, bool(r.options.expand1) and not r.alias, bool(r.options.keep_all_tokens),
                     tuple(r.options.empty_indices or ()))
             self.rules.setdefault(a.origin, []).append(a)
         for alts in self.rules.values():
